@@ -5,6 +5,18 @@ import json, subprocess
 BASELINE = json.load(open('/root/.vp/BASELINE.json'))['cmd']
 
 CHECKS = {
+ "C01": dict(level="exploration", design="DESIGN.md §4 C01",
+   text="Bounded-exhaustive conformance of the real pipeline (parser, symbol rewriter, bytecode compiler, VM built from the working tree) against an executable reference model of the documented language: every program of the operand-source x statement-context and operand-source x expression-context products (about a million sessions in the quick tier) is executed on a fresh VM and on the model and compared on value, output and error class, statement by statement.",
+   note="Trusts the reference model refsem (self-tested against every TestCalc row and Readme example before each run) and the domain restriction stated in DESIGN.md §3.3; programs outside the enumerated families and bounds are not covered.",
+   technique="bounded exhaustive enumeration of programs (products of finite alphabets) with conformance checking against an executable reference model"),
+ "C13": dict(level="model_checking", design="DESIGN.md §4 C13",
+   text="(a) Explicit-state breadth-first search over every sequence of Next/Snapshot/Rollback/Commit on the real transactional lexer (states keyed on readp, writep and the snapshot stack), each transition compared with a fresh plain scan; (b) every combinator term to depth 2 over Accept/Ok/And/Seq/OneOf/Choose/Any/SeparatedBy/SurroundedBy/Assert/Not/Drop/Fmap run on all 121 token streams of length <= 4 over both the real TLexer and a list lexer and compared with an ordered-choice recogniser on accept/reject, results and input position.",
+   note="The recogniser (harness side) is the model; every model behaviour is replayed on the real combinators (traces_validated_against_impl). Terms deeper than the bound and streams longer than 4 tokens are not covered.",
+   technique="explicit-state BFS over the real TLexer's transition function + exhaustive term x stream enumeration against an ordered-choice recogniser"),
+ "C14": dict(level="exploration", design="DESIGN.md §4 C14",
+   text="Every string over an 18-character alphabet (digits, letters, operator and bracket characters, quote, backslash, dot, blank, tab, newline, semicolon) up to length 5 (quick) / 6 (thorough) is tokenised by the real lexer and by an independent tokenizer written from the Readme's token regexes; spans, gaps, end markers and every single-gap layout variation are checked on each accepted string.",
+   note="Trusts the independent tokenizer (harness side); characters outside the alphabet and longer strings are not covered; termination is C06's subject (fuel-exhausted inputs are skipped and counted).",
+   technique="exhaustive enumeration of all strings up to a length bound against an independent specification tokenizer + invariant checking"),
  "C11": dict(level="exploration", design="DESIGN.md §4 C11",
    text="Every operand tuple of a 43-value alphabet (all kinds, boundary ints, ±0/±Inf/NaN, nested arrays, functions) for every operator method and every container/index combination around the bounds is executed on the real value package and compared with the specification table written from Readme.md; the stated laws are evaluated on every tuple. The space is finite and enumerated completely in both tiers.",
    note="Trusts the harness-side specification table (refsem/value.go), which is itself cross-checked against all TestCalc rows; operand values outside the alphabet are not covered.",
